@@ -21,12 +21,27 @@ def _eval_shard(args):
         cmd += ["-mode", mode]
     p = core.run_hx(cmd)
     if p.returncode != 0:
-        raise RuntimeError("harness failed: " + (p.stderr or "")[-3000:])
+        # a crash that does not repeat on the same inputs is a timing accident of the harness or of the
+        # engine's background goroutines; it is kept on disk and the shard is run once more
+        os.makedirs(out, exist_ok=True)
+        open(os.path.join(out, "harness_crash_first.txt"), "w").write(p.stderr or "")
+        p = core.run_hx(cmd)
+    if p.returncode != 0:
+        os.makedirs(out, exist_ok=True)
+        open(os.path.join(out, "harness_crash.txt"), "w").write(p.stderr or "")
+        err = p.stderr or ""
+        m = err.find("panic:")
+        f = err.find("fatal error:")
+        k = min([x for x in (m, f) if x >= 0], default=0)
+        raise RuntimeError("harness crashed (full text in %s):\n%s" % (os.path.join(out, "harness_crash.txt"), err[k:k + 2500]))
     cases, bad, wall = [], [], 0.0
     files = sorted(glob.glob(os.path.join(out, "cases_*.v")))
     with cf.ThreadPoolExecutor(max_workers=6) as ex:
         for f, (b, w) in zip(files, ex.map(core.coq_eval_cases, files)):
             cs = json.load(open(f[:-2] + ".json"))
+            for c in cs:
+                if isinstance(c, dict):
+                    c["_dir"] = out
             off = len(cases)
             cases += cs
             bad += [(i + off, code, step) for (i, code, step) in b]
@@ -73,29 +88,32 @@ def strip(case):
     return c
 
 
-def confirm(res, hx, corr, suspects, mode=None):
-    """Re-run suspect histories 5x slower; only what reproduces is believed (timing-sensitive harnesses)."""
+def confirm(res, hx, corr, suspects, mode=None, unit=None):
+    """Re-run suspect histories 5x slower; only what reproduces is believed (timing-sensitive harnesses).
+    unit(case) gives the replayable object (default: the case itself without its observations)."""
     if not suspects:
         return []
     uniq = {}
     for c, code, step in suspects:
         if len(uniq) >= 300:
             break
-        uniq.setdefault(json.dumps(strip(c).get("ops", strip(c)), sort_keys=True), c)
+        if unit:
+            u = unit(c)
+            if u is None:
+                continue
+        else:
+            u = strip(c)
+            u.pop("trace", None)
+        uniq.setdefault(json.dumps(u, sort_keys=True), u)
     path = os.path.join(core.WORK, "%s-%s-confirm.json" % (res.prop, res.tier))
-    lst = []
-    for c in uniq.values():
-        c2 = strip(c)
-        c2.pop("trace", None)
-        lst.append(c2)
-    json.dump(lst, open(path, "w"))
+    json.dump(list(uniq.values()), open(path, "w"))
     cases, bad = explore(res, hx, corr, 0, res.seed, "confirm", replay=path, slow=5, mode=mode)
     return bad
 
 
 def standard_flow(res, hx, corr, n, signature, describe, rule, nontrivial, key, stats, assumptions,
                   replay=None, mode=None, gen_obligations=None, level="proof", extra=None, shard=None, plans=None,
-                  relevant=None):
+                  relevant=None, deterministic=False, unit=None):
     builds = core.build_all()
     broken = []          # names of proof obligations / ties that no longer check
     if not builds["translator"]["ok"]:
@@ -148,7 +166,10 @@ def standard_flow(res, hx, corr, n, signature, describe, rule, nontrivial, key, 
     if relevant:
         bad = [(c, code, step) for (c, code, step) in bad if relevant(c, code, step)]
     suspects = [(c, code, step) for (c, code, step) in bad if code >= 2]
-    confirmed = confirm(res, hx, corr, suspects, mode=mode) if suspects else []
+    if deterministic:
+        confirmed = suspects          # nothing timing-dependent in this harness: a re-run would repeat the same steps
+    else:
+        confirmed = confirm(res, hx, corr, suspects, mode=mode, unit=unit) if suspects else []
     if relevant:
         confirmed = [(c, code, step) for (c, code, step) in confirmed if relevant(c, code, step)]
     flaky = len(suspects) - len([1 for x in confirmed if x[1] >= 2])
@@ -189,7 +210,7 @@ def standard_flow(res, hx, corr, n, signature, describe, rule, nontrivial, key, 
             cases += c2
             s2 = [(c, code, step) for (c, code, step) in b2 if code >= 3 and (not relevant or relevant(c, code, step))]
             if s2:
-                v2, _ = triage(confirm(res, hx, corr, s2, mode=mode))
+                v2, _ = triage(s2 if deterministic else confirm(res, hx, corr, s2, mode=mode, unit=unit))
                 if v2:
                     vio = v2
                     break
